@@ -111,7 +111,8 @@ class Contract:
     def __init__(self, name, params, requires=(), ensures=(), raises=None, modifies=(),
                  allocates=False, loops=None, returns='none', axioms=(), hints=None,
                  role=False, pure=False, noraise_ok=True, ghost=None, cases=None, free_requires=(),
-                 known=None, defaults=None, ghost_init=None, varkw=None, ghost_kinds=None):
+                 known=None, defaults=None, ghost_init=None, varkw=None, ghost_kinds=None,
+                 call_asserts=None, call_ghost=None, call_effects=None):
         self.name = name
         self.params = params            # ordered dict name -> kind
         self.requires = list(requires)
@@ -130,6 +131,9 @@ class Contract:
         self.ghost_init = ghost_init or {}
         self.varkw = varkw
         self.ghost_kinds = ghost_kinds or {}
+        self.call_asserts = call_asserts or {}   # callee short name -> clauses checked at each call
+        self.call_effects = call_effects or {}   # callee short name -> ghost assignments performed when it is called
+        self.call_ghost = call_ghost or {}       # attribute of self holding a callback -> ghost variable receiving its result
         self.known = known or {}        # clause key ('post#i' / 'raises:Cls#i') -> dict(id=..., case=spec)
         if defaults:
             self.defaults = defaults
@@ -506,6 +510,10 @@ class Engine:
             return a.payload[1] == b.z
         if isinstance(a, VStruct) and isinstance(b, VStruct):
             return a.z == b.z
+        if isinstance(a, VClassSym) and isinstance(b, VClassSym):
+            return a.z == b.z
+        if isinstance(a, VList) and isinstance(b, VList):
+            return None
         if isinstance(a, VRef) and isinstance(b, VRef):
             return a.z == b.z
         if isinstance(a, VTuple) and isinstance(b, VTuple):
